@@ -31,7 +31,8 @@ ASSUMPTIONS = ["frames are built by vp.ref.codec.ubx_frame (independent Fletcher
 def floors(tier):
     return {"accepted": 2000, "kind=exact": 300, "kind=short": 200, "kind=long": 200,
             "kind=empty": 200, "kind=random": 200, "id=undoc-id": 100, "id=unknown-class": 100,
-            "mode=SETPOLL": 300, "len>=256": 10, "after-checksum-twin": 300, "cfgval-items": 60, "long-zero-state": 40, "size~2^k": 300}
+            "mode=SETPOLL": 300, "len>=256": 10, "after-checksum-twin": 300, "cfgval-items": 60, "long-zero-state": 40, "size~2^k": 300,
+            "byte-sweep": 100000, "special-tail": 5000}
 
 
 def plan(tier, seed):
@@ -90,6 +91,13 @@ def run_shard(spec, ctx, acc):
             if G_min_size(t) >= 3:
                 core.hyp_search(acc, twin, check, seed=core.derive(ctx["seed"], PROP, "twin", t.label),
                                 max_examples=2 if tier == "quick" else 20, known=known, rounds=1)
+        # single-byte sweeps and special tails at each target's natural sizes
+        for ti in spec["targets"]:
+            for case in edge_cases(targets[ti], tier, ctx["seed"]):
+                o = check(case)
+                o.classes = list(o.classes) + [case["edge"]]
+                if core.handle(acc, o, case, known) and len(acc.violations) >= core.MAX_VIOL_PER_SHARD:
+                    break
         # long payloads (several read/checksum blocks): sizes around multiples of 4096
         # and payloads whose running checksum state is (0, 0) at every block boundary
         if spec["name"] in ("s0", "s1", "s2", "s3"):
@@ -146,6 +154,94 @@ def run_shard(spec, ctx, acc):
                     case = _mk(clsid, payload, mode, bf, pk, "sweep")
                     if core.handle(acc, check(case), case, known):
                         return
+
+
+TAILS = [b"\r\n", b"\n", b"\r", b"\n\r", b"\x00", b"\x00\x00", b" ", b"\t", b"\r\n\x00", b"\xff", b"\xb5\x62",
+         b"$", b"\xef\xbb\xbf", b"\x1a", b"\\", b"'", b'"']
+
+
+def natural_sizes(t, tier="thorough"):
+    """Payload sizes the definition itself suggests: every group empty, every
+    counted group with one and two members, and a few bytes beyond."""
+    from vp.gen import layout
+    from vp.ref import grammar as G
+
+    if G.audit_fatal(t.defn):
+        return [1, 2, 8]
+    sizes = set()
+    forced = {k: v for k, v in (C.catalog.forced_for(t) or {}).items() if not isinstance(v, tuple)}
+    for n in (0, 1, 2) if tier != "quick" else (0, 1):
+        try:
+            nodes = layout.zero_instance(t.defn, mode=t.mode, clsid=t.clsid, forced=forced,
+                                         counts={c: n for c in G.count_names(t.defn)})
+            sizes.add(len(G.encode(nodes)))
+        except Exception:  # noqa - the generator's limits are not the library's
+            continue
+    base = min(sizes) if sizes else 0
+    sizes |= {base + 1} if tier == "quick" else {base + 1, base + 2, base + 4}
+    return sorted(x for x in sizes if 0 < x <= 4000)
+
+
+def edge_cases(t, tier, seed):
+    """Deterministic payloads: at each natural size, every value of the last byte
+    (and of the first byte at the smallest size) over an all-zero and - thorough
+    tier - a pseudo-random base; special tails (line ends, NUL, quotes, sync
+    characters) in place of and after the last bytes."""
+    import hashlib
+
+    sizes = natural_sizes(t, tier)
+    # the upper bytes of a multi-byte repeat count: a truncated payload with a count
+    # of tens of thousands costs the library ~0.2 s per parse; a few values suffice
+    heavy = set()
+    try:
+        from vp.gen import layout
+        from vp.ref import grammar as G
+
+        if not G.audit_fatal(t.defn):
+            cn = set(G.count_names(t.defn))
+            z = layout.zero_instance(t.defn, mode=t.mode, clsid=t.clsid)
+            for name, a, e in G.leaf_spans(z)[0]:
+                if name in cn:
+                    heavy |= set(range(a + 1, e))
+    except Exception:  # noqa
+        pass
+    bases = [("zero", lambda n: bytes(n))]
+    if tier != "quick":
+        bases.append(("rnd", lambda n: hashlib.shake_256(t.label.encode() + bytes([seed & 0xFF])).digest(n)))
+    for bname, mk in bases:
+        for si, n in enumerate(sizes):
+            base = mk(n)
+            pos = [n - 1] + ([0] if si == 0 and n > 1 else [])
+            if tier != "quick":
+                pos = sorted(set(range(min(n, 6))) | set(range(max(0, n - 6), n)))
+            for p in pos:
+                for v in (range(256) if p not in heavy else (1, 2, 0x80, 0xFF)):
+                    if v == base[p] and (p != n - 1 or bname != "zero"):
+                        continue
+                    b = bytearray(base)
+                    b[p] = v
+                    yield dict(_mk(t.clsid, bytes(b), t.mode, 1, "exact", "defined"), edge="byte-sweep",
+                               light=bool(v % 16 != 7))
+            for tail in TAILS:
+                body = base[: n - len(tail)] + tail
+                if len(tail) <= n and sum(1 for q in heavy if q < n and body[q] > 8) == 0:
+                    yield dict(_mk(t.clsid, body, t.mode, 1, "exact", "defined"), edge="special-tail")
+                yield dict(_mk(t.clsid, base + tail, t.mode, si % 2, "long", "defined"), edge="special-tail")
+    if tier != "quick" and any(x == "CH" for x in _leaf_types(t.defn)):
+        # variable-length text: every two-byte ending
+        for v in range(65536):
+            yield dict(_mk(t.clsid, b"text" + bytes([v >> 8, v & 0xFF]), t.mode, 1, "exact", "defined"),
+                       edge="special-tail")
+
+
+def _leaf_types(defn):
+    for v in defn.values():
+        if isinstance(v, str):
+            yield v
+        elif isinstance(v, tuple) and isinstance(v[1], dict) and not isinstance(v[0], str):
+            yield from _leaf_types(v[1])
+        elif isinstance(v, tuple) and isinstance(v[1], dict) and v[0] in ("None",):
+            yield from _leaf_types(v[1])
 
 
 def twin_payload(payload, i, d):
@@ -210,6 +306,8 @@ def check(case) -> core.Out:
             bad("payload", "payload property differs")
         if m.payload is not None and not isinstance(m.payload, bytes):
             bad("payload", f"payload type {type(m.payload).__name__}")
+        if case.get("light"):
+            return out  # sweep cases: the repr clause is evaluated on a 1/16 sample
         rp = repr(m)
         m2 = eval(rp, {"UBXMessage": pyubx2.UBXMessage, "__builtins__": {}})  # noqa: S307
         if m2.serialize() != frame:
